@@ -39,6 +39,8 @@ def reconnect_pending(w):
     if st == S.CONNECT:
         return len(connecting) == 1 or w.timer_active('connect_retry')
     if st == S.IDLE:
+        if w.timer_active('idle_hold') and w.timer_deadline('idle_hold') - r.now > w.cfg['idle_hold_time']:
+            return False                           # pending, but later than one idle-hold period
         return w.timer_active('idle_hold') or len(closing) > 0 or len(connecting) > 0
     return False
 
@@ -145,7 +147,9 @@ def ob_heal(e1: int, e2: int, e3: int, e4: int) -> bool:
     # the world of run_seq is the global reactor's: recover it
     w = LAST['w']
     c = w.cfg
-    budget = c['idle_hold_time'] + c['connect_retry_time'] + 1
+    # "within one idle-hold period plus one connection cycle": the cooperative peer accepts a TCP attempt at once, so
+    # the cycle costs no virtual time; one second of slack
+    budget = c['idle_hold_time'] + 1
     n_wire = len(w.reactor.wire)
     if not cooperate(w, P.get('peer_hold', 90), budget):
         return False
@@ -178,6 +182,8 @@ CONFIGS = {
     'default': {},
     'fast': {'hold_time': 3, 'keep_alive_time': 1, 'connect_retry_time': 10, 'idle_hold_time': 5},
     'hold0': {'hold_time': 0, 'keep_alive_time': 0, 'connect_retry_time': 30, 'idle_hold_time': 30},
+    # connect-retry much longer than idle-hold: tells the two timers apart
+    'skew': {'connect_retry_time': 120, 'idle_hold_time': 10},
 }
 
 
@@ -190,6 +196,9 @@ def obligations(tier, seed):
                 continue
             out.append(ob('C02/pending/%s/%s' % (S.STATE_NAMES[state], ev), 'ob_step', {'state': state, 'ev': ev},
                           covers=['stepped'], cap=120))
+            if ev in ('tcp_fail', 'peer_close', 'holdt', 'notif', 'hdr_type', 'open_badver', 'crt', 'notif_ver', 'upd', 'ka'):
+                out.append(ob('C02/pending-skew/%s/%s' % (S.STATE_NAMES[state], ev), 'ob_step',
+                              {'state': state, 'ev': ev, 'cfg': CONFIGS['skew']}, covers=['stepped'], cap=120))
     # the same with an earlier connection in the history: finished (the FSM still refers to its protocol object) or
     # still closing
     for state, evs in SC.EVENTS_BY_STATE.items():
